@@ -58,17 +58,10 @@ func ruleF1(c *Ctx, id string) {
 				R.Fail(id, FuncName(fn)+"|Resize result consumed", P.Pos(call.Pos()), "the 'needs background shrink' result of Resize is tested", "result dropped: a large truncate never frees its blocks")
 				continue
 			}
-			// every path on which the result is true must reach StartShrinker(ip.Inum)
-			isStart := func(in ssa.Instruction) bool {
-				if !callTo(start)(in) {
-					return false
-				}
-				n, fl, base, _ := loadedField(argN(in, 0))
-				return n == V.Inode && fl == "Inum" && base == stripConv(ip)
-			}
-			falseEdge := boolEdge(fn, cv, false)
-			ok := MustAfterE(fn, isStart, nil, falseEdge)(call)
-			R.Check(ok, id, FuncName(fn)+"|Resize true => StartShrinker", P.Pos(call.Pos()), "every path on which Resize returned true starts the shrinker for that inode", "must-follow except on the result==false edge", "a path ignores 'needs shrinking': the blocks beyond the new size are never freed")
+			// every path on which the result is true must reach StartShrinker(ip.Inum); a private helper may hand the
+			// result to its caller instead, which then owes the same
+			ok := resizeConsumed(c, start, fn, cv, call, ip, 0)
+			R.Check(ok, id, FuncName(ownerOf(fn))+"|Resize true => StartShrinker", P.Pos(call.Pos()), "every path on which Resize returned true starts the shrinker for that inode", "must-follow except on the result==false edge", "a path ignores 'needs shrinking': the blocks beyond the new size are never freed")
 		}
 		// Shrink may stop early (log space): its 'more to do' result must reach the caller or a loop test
 		for _, call := range P.CallsIn(fn, funcIs(V.Shrink)) {
@@ -409,4 +402,125 @@ func ruleF10(c *Ctx, id string) {
 		}
 	}
 	R.Check(okE && nE > 0, id, "inode.indbmap|failure returns the caller's root", P.Pos(ind.Pos()), "every return after the recursive call that can be reached without a mapped block returns the root parameter unchanged", fmt.Sprintf("%d failure returns", nE), "the caller (bmap) stores the useless root into the inode")
+}
+
+// resizeConsumed: after instruction at of fn, on every path on which the
+// boolean v ("the file needs background shrinking") is true, StartShrinker is
+// called for inode ip; or fn is a private helper that returns v (or false) to
+// its callers, each of which does so with the value it receives.
+func resizeConsumed(c *Ctx, start *ssa.Function, fn *ssa.Function, v ssa.Value, at ssa.Instruction, ip ssa.Value, depth int) bool {
+	V := c.V
+	isStart := func(in ssa.Instruction) bool {
+		if !callTo(start)(in) {
+			return false
+		}
+		n, fl, base, _ := loadedField(argN(in, 0))
+		return n == V.Inode && fl == "Inum" && base == stripConv(ip)
+	}
+	if MustAfterE(fn, isStart, nil, boolEdge(fn, v, false))(at) {
+		return true
+	}
+	if depth > 1 || !isPrivateHelper(fn) || len(staticSites[fn]) == 0 {
+		return false
+	}
+	// v only flows into returns (directly or through a phi with constants false)
+	idx := -1
+	var flows func(x ssa.Value, d int) bool
+	flows = func(x ssa.Value, d int) bool {
+		if d > 3 {
+			return false
+		}
+		for _, r := range refs(x) {
+			switch u := r.(type) {
+			case *ssa.Return:
+				for i, res := range u.Results {
+					if res == x {
+						if idx >= 0 && idx != i {
+							return false
+						}
+						idx = i
+					}
+				}
+			case *ssa.Phi:
+				for _, e := range u.Edges {
+					if e == x {
+						continue
+					}
+					if bv, isb := constBool(e); !isb || bv {
+						return false
+					}
+				}
+				if !flows(u, d+1) {
+					return false
+				}
+			case *ssa.DebugRef:
+			default:
+				return false
+			}
+		}
+		return true
+	}
+	if !flows(v, 0) || idx < 0 {
+		return false
+	}
+	// every other return gives false at that position
+	for _, b := range fn.Blocks {
+		if r, ok := b.Instrs[len(b.Instrs)-1].(*ssa.Return); ok && idx < len(r.Results) {
+			res := r.Results[idx]
+			if bv, isb := constBool(res); isb && !bv {
+				continue
+			}
+			if res == v {
+				continue
+			}
+			if ph, isP := res.(*ssa.Phi); isP {
+				okP := true
+				for _, e := range ph.Edges {
+					if e == v {
+						continue
+					}
+					if bv, isb := constBool(e); !isb || bv {
+						okP = false
+					}
+				}
+				if okP {
+					continue
+				}
+			}
+			return false
+		}
+	}
+	pi := -1
+	if pm, ok := stripConv(ip).(*ssa.Parameter); ok {
+		for i, q := range fn.Params {
+			if q == pm {
+				pi = i
+			}
+		}
+	}
+	if pi < 0 {
+		return false
+	}
+	for _, site := range staticSites[fn] {
+		sv, ok := site.(*ssa.Call)
+		if !ok || pi >= len(sv.Call.Args) {
+			return false
+		}
+		var rv ssa.Value = sv
+		if fn.Signature.Results().Len() > 1 {
+			rv = nil
+			for _, r := range refs(sv) {
+				if ex, isE := r.(*ssa.Extract); isE && ex.Index == idx {
+					rv = ex
+				}
+			}
+			if rv == nil {
+				return false
+			}
+		}
+		if !resizeConsumed(c, start, sv.Parent(), rv, sv, sv.Call.Args[pi], depth+1) {
+			return false
+		}
+	}
+	return true
 }
